@@ -34,35 +34,38 @@ func frozenWriters(b *roaring.Bitmap, execs *int64) ([]byte, *ev.Fail) {
 	if len(fz) != need {
 		return nil, fail("Freeze", "accounting", "Freeze wrote %d bytes, GetFrozenSizeInBytes()=%d", len(fz), need)
 	}
-	for _, extra := range []int{-1, 0, 1, 4096} {
-		if need+extra < 0 {
+	// destination buffers: length need+extra, carved out of a larger arena so that the slice has spare capacity
+	// (slack) behind its length - "too small" is about the length, and nothing behind the length may be written
+	for _, extra := range []int{-need, -1, 0, 1, 4096} {
+		if need+extra < 0 || (extra == -need && need < 2) {
 			continue
 		}
-		w := make([]uint64, (need+extra)/8+2)
-		buf := shapes.Aligned(bytes.Repeat([]byte{0x5A}, need+extra))
-		_ = w
-		n, err := b.FreezeTo(buf)
-		atomic.AddInt64(execs, 1)
-		if extra < 0 {
-			if err == nil {
-				return nil, fail("FreezeTo", "no-error", "FreezeTo into a buffer of %d bytes (need %d) returned no error", need+extra, need)
-			}
-			for i, x := range buf {
-				if x != 0x5A {
-					return nil, fail("FreezeTo", "wrote-on-error", "FreezeTo into a too small buffer wrote byte %d", i)
+		for _, slack := range []int{0, 1, need + 8} {
+			arena := shapes.Aligned(bytes.Repeat([]byte{0x5A}, need+extra+slack))
+			buf := arena[:need+extra]
+			n, err := b.FreezeTo(buf)
+			atomic.AddInt64(execs, 1)
+			if extra < 0 {
+				if err == nil {
+					return nil, fail("FreezeTo", "no-error", "FreezeTo into a buffer of %d bytes with capacity %d (need %d) returned no error", need+extra, need+extra+slack, need)
 				}
+				for i, x := range arena {
+					if x != 0x5A {
+						return nil, fail("FreezeTo", "wrote-on-error", "FreezeTo into a too small buffer (len %d, cap %d, need %d) wrote byte %d", need+extra, need+extra+slack, need, i)
+					}
+				}
+				continue
 			}
-			continue
-		}
-		if err != nil || n != need {
-			return nil, fail("FreezeTo", "accounting", "FreezeTo(buffer %d) = (%d,%v), need %d", need+extra, n, err, need)
-		}
-		if !bytes.Equal(buf[:need], fz) {
-			return nil, fail("FreezeTo", "differs", "FreezeTo(buffer %d) bytes differ from Freeze", need+extra)
-		}
-		for i := need; i < len(buf); i++ {
-			if buf[i] != 0x5A {
-				return nil, fail("FreezeTo", "overrun", "FreezeTo wrote beyond its %d bytes (offset %d)", need, i)
+			if err != nil || n != need {
+				return nil, fail("FreezeTo", "accounting", "FreezeTo(buffer %d) = (%d,%v), need %d", need+extra, n, err, need)
+			}
+			if !bytes.Equal(buf[:need], fz) {
+				return nil, fail("FreezeTo", "differs", "FreezeTo(buffer %d) bytes differ from Freeze", need+extra)
+			}
+			for i := need; i < len(arena); i++ {
+				if arena[i] != 0x5A {
+					return nil, fail("FreezeTo", "overrun", "FreezeTo wrote beyond its %d bytes (offset %d; buffer len %d cap %d)", need, i, need+extra, need+extra+slack)
+				}
 			}
 		}
 	}
